@@ -532,11 +532,12 @@ KEYS_B3 = ["p", "t0", "t1", "t2", "t3", "t4", "t5", "t6", "t7", "t8", "t10", "t1
 # sub-families (pin dicts; see the bound texts)
 P_LE2 = [{"p": 0}, {"p": 1}, {"p": 2}]
 Q_P3 = [{"p": 3, "t0": 0, "t1": 2, "t2": 1, "t3": 1, "t4": 1}]                 # S -> A A, A -> x | y
-T_P3 = [{"p": 3, "t0": 0, "t1": 2, "t2": 0}, {"p": 3, "t0": 0, "t1": 2, "t2": 1}]   # least production S -> <var> X
+T_P3 = [{"p": 3, "t0": 0, "t1": 2, "t2": 0, "t3": 0}, {"p": 3, "t0": 0, "t1": 2, "t2": 1}]   # least: S -> S S | S -> A X
 F_B3 = [{"p": 2, "t0": 0, "t1": 3, "t2": 1, "t3": 2, "t5": 1}]                 # S -> A a X, A -> body of <= 3
 F_V3 = [{"p": 4, "t0": 0, "t1": 2, "t2": 1, "t3": 2, "t4": 1, "t5": 1, "t6": 3, "t8": 2, "t12": 2}]  # S->A B, A->a, B->x|y
 
-TARGET = {"quick": 45.0, "thorough": 150.0}
+TARGET = {"quick": 60.0, "thorough": 200.0}
+LIMITS = dict(per_path_timeout=600.0, shard_timeout={"quick": 1800, "thorough": 7200})
 
 
 def _ref(t, p, fam):
@@ -553,13 +554,13 @@ def _cost_flat(c):
 def _cost_llone(fam):
     def cost(t, p, pin):
         g = _ref(t, p, fam)
-        return 4.5 if (OC.is_ll1(g) and not OC.useless_symbols_present(g)) else 0.08
+        return 7.5 if (OC.is_ll1(g) and not OC.useless_symbols_present(g)) else 0.08
     return cost
 
 
 def _cost_recursive(fam):
     def cost(t, p, pin):
-        return 0.45 if recursive_in_scope(_ref(t, p, fam), pin["left"]) else 0.08
+        return 0.55 if recursive_in_scope(_ref(t, p, fam), pin["left"]) else 0.08
     return cost
 
 
@@ -576,10 +577,13 @@ BOUND_BASE = {
     "quick": "grammars over variables {S,A}, terminals {a,b}, start S, bodies of <=2 symbols (epsilon bodies "
              "included): ALL sets of <=2 productions (904) + all 210 grammars {S -> A A, A -> x, A -> y}; each "
              "against EVERY word of length <=3 over {a,b}%s",
-    "thorough": "same universe: all sets of <=2 productions (904) + all 4116 sets of 3 productions whose least "
-                "production (order head,length,symbols) is S -> S X or S -> A X; each against every word of "
-                "length <=3 over {a,b}%s",
+    "thorough": "same universe: all sets of <=2 productions (904) + all 2432 sets of 3 productions whose least "
+                "production (order head,length,symbols) is S -> S S or S -> A X (X any symbol); each against "
+                "every word of length <=3 over {a,b}%s",
 }
+BOUND_LL = dict(BOUND_BASE, quick="grammars over variables {S,A}, terminals {a,b}, start S, bodies of <=2 symbols "
+                "(epsilon bodies included): ALL sets of <=2 productions (904), each against EVERY word of "
+                "length <=3 over {a,b}%s")
 BOUND_B3 = {"thorough": "bodies of <=3 symbols: the 340 grammars {S -> A a X, A -> body of <=3 symbols over "
                         "{S,A,a,b}} (X one symbol) against every word of length <=3 over {a,b}%s"}
 BOUND_V3 = {"thorough": "3 variables {S,A,B}, 4 productions: the 465 grammars {S -> A B, A -> a, B -> x, B -> y} "
@@ -622,28 +626,28 @@ def _b(d, note):
 
 
 CONDS = [
-    Cond("C15", c15_llone, _mk(BASE, KEYS_BASE, P_LE2 + Q_P3, P_LE2 + T_P3, _cost_llone(BASE)),
-         _b(BOUND_BASE, LL_NOTE), F_LL, RULE, assumptions=A_COMMON + A_LL),
-    Cond("C15", c15_cnf, _mk(BASE, KEYS_BASE, P_LE2 + Q_P3, P_LE2 + T_P3, _cost_flat(0.7)),
-         _b(BOUND_BASE, CNF_NOTE), F_CNF, RULE, assumptions=A_COMMON),
+    Cond("C15", c15_llone, _mk(BASE, KEYS_BASE, P_LE2, P_LE2 + T_P3, _cost_llone(BASE)),
+         _b(BOUND_LL, LL_NOTE), F_LL, RULE, assumptions=A_COMMON + A_LL, **LIMITS),
+    Cond("C15", c15_cnf, _mk(BASE, KEYS_BASE, P_LE2 + Q_P3, P_LE2 + T_P3, _cost_flat(0.9)),
+         _b(BOUND_BASE, CNF_NOTE), F_CNF, RULE, assumptions=A_COMMON, **LIMITS),
     Cond("C15", c15_fcfg, _mk(BASE, KEYS_BASE, P_LE2 + Q_P3, P_LE2 + T_P3, _cost_flat(0.65)),
-         _b(BOUND_BASE, ""), F_FC, RULE, assumptions=A_COMMON),
+         _b(BOUND_BASE, ""), F_FC, RULE, assumptions=A_COMMON, **LIMITS),
     Cond("C15", c15_recursive, _mk(BASE, KEYS_BASE, P_LE2 + Q_P3, P_LE2 + T_P3, _cost_recursive(BASE), LR),
-         _b(BOUND_BASE, RD_NOTE), F_RD, RULE, assumptions=A_COMMON + A_RD),
+         _b(BOUND_BASE, RD_NOTE), F_RD, RULE, assumptions=A_COMMON + A_RD, **LIMITS),
     Cond("C15", c15_llone_b3, _mk(B3, KEYS_B3, [], F_B3, _cost_llone(B3)),
-         _b(BOUND_B3, LL_NOTE), F_LL, RULE, tiers=("thorough",), assumptions=A_COMMON + A_LL),
+         _b(BOUND_B3, LL_NOTE), F_LL, RULE, tiers=("thorough",), assumptions=A_COMMON + A_LL, **LIMITS),
     Cond("C15", c15_cnf_b3, _mk(B3, KEYS_B3, [], F_B3, _cost_flat(0.8)),
-         _b(BOUND_B3, CNF_NOTE), F_CNF, RULE, tiers=("thorough",), assumptions=A_COMMON),
+         _b(BOUND_B3, CNF_NOTE), F_CNF, RULE, tiers=("thorough",), assumptions=A_COMMON, **LIMITS),
     Cond("C15", c15_fcfg_b3, _mk(B3, KEYS_B3, [], F_B3, _cost_flat(0.8)),
-         _b(BOUND_B3, ""), F_FC, RULE, tiers=("thorough",), assumptions=A_COMMON),
+         _b(BOUND_B3, ""), F_FC, RULE, tiers=("thorough",), assumptions=A_COMMON, **LIMITS),
     Cond("C15", c15_recursive_b3, _mk(B3, KEYS_B3, [], F_B3, _cost_recursive(B3), LR),
-         _b(BOUND_B3, RD_NOTE), F_RD, RULE, tiers=("thorough",), assumptions=A_COMMON + A_RD),
+         _b(BOUND_B3, RD_NOTE), F_RD, RULE, tiers=("thorough",), assumptions=A_COMMON + A_RD, **LIMITS),
     Cond("C15", c15_llone_v3, _mk(V3, KEYS_V3, [], F_V3, _cost_llone(V3)),
-         _b(BOUND_V3, LL_NOTE), F_LL, RULE, tiers=("thorough",), assumptions=A_COMMON + A_LL),
+         _b(BOUND_V3, LL_NOTE), F_LL, RULE, tiers=("thorough",), assumptions=A_COMMON + A_LL, **LIMITS),
     Cond("C15", c15_cnf_v3, _mk(V3, KEYS_V3, [], F_V3, _cost_flat(0.9)),
-         _b(BOUND_V3, CNF_NOTE), F_CNF, RULE, tiers=("thorough",), assumptions=A_COMMON),
+         _b(BOUND_V3, CNF_NOTE), F_CNF, RULE, tiers=("thorough",), assumptions=A_COMMON, **LIMITS),
     Cond("C15", c15_fcfg_v3, _mk(V3, KEYS_V3, [], F_V3, _cost_flat(0.9)),
-         _b(BOUND_V3, ""), F_FC, RULE, tiers=("thorough",), assumptions=A_COMMON),
+         _b(BOUND_V3, ""), F_FC, RULE, tiers=("thorough",), assumptions=A_COMMON, **LIMITS),
     Cond("C15", c15_recursive_v3, _mk(V3, KEYS_V3, [], F_V3, _cost_recursive(V3), LR),
-         _b(BOUND_V3, RD_NOTE), F_RD, RULE, tiers=("thorough",), assumptions=A_COMMON + A_RD),
+         _b(BOUND_V3, RD_NOTE), F_RD, RULE, tiers=("thorough",), assumptions=A_COMMON + A_RD, **LIMITS),
 ]
